@@ -139,7 +139,7 @@ CHECKS = {
     note="", design="4/C10", technique=TECH + "; Apalache lemmas"),
  "C18": dict(
     text="MC_FixedPoint / FixedLemmas (MonotoneStep, RangeKept): with non-negative integer coefficients inside the unity band the accumulate/round/shift/clip pipeline is monotone in every sample and stays within [min,max] of the window; "
-         "C10's coefficient check shows the real tables of Box/Bilinear/Hamming/Gaussian are non-negative and inside the band. Conformance: ~2k executions with contents confined to sub-ranges touching 0 / max (negative for I32), strong down-scales (windows of 16-100 taps) over plateaus and steps at the ends of the range on every back-end, for all types, "
+         "the premises are checked on the real tables of Box/Bilinear/Hamming/Gaussian (hook): every quantised coefficient non-negative, every window inside the band, accumulator within its budget, extreme scales included. Conformance: ~2k executions with contents confined to sub-ranges touching 0 / max (negative for I32), strong down-scales (windows of 16-100 taps) over plateaus and steps at the ends of the range on every back-end, for all types, "
          "algorithms and back-ends: TLC checks destination (min,max) inside source (min,max) per component plane, and dst(A) <= dst(B) for ordered pairs A <= B (floats: 1 ulp slack).",
     note="", design="4/C18", technique=TECH + "; Apalache lemmas"),
 }
